@@ -14,7 +14,12 @@ rebuilt from /repo and all of them compared with the same reference model (set m
      GI_SECTION_END (linear fallback), g_irepository_find_by_name, g_typelib_get_dir_entry_by_gtype_name
      / g_irepository_find_by_gtype (real GTypes registered under the probe names),
      g_typelib_get_dir_entry_by_error_domain / g_irepository_find_by_error_domain, with a second namespace
-     holding the complementary key set loaded next to it.
+     holding the complementary key set loaded next to it.  Two of three paired cases make Test refer to types
+     of Other whose (alphabet) names are absent from Test, so that non-local directory entries with those bare
+     names follow the local ones (MUST stay absent on every path; includes 2-entry namespaces, which get no
+     index).  Load sequences rotate: eager / G_IREPOSITORY_LOAD_FLAG_LAZY / lazy then eager, each preceded by
+     repository-level probes of every key while nothing is loaded (disagreements seen while a namespace is only
+     lazily registered are keyed typelib-lazy-*).
  (L) size ladder N in {1,2,3,255,256,257,4096[,16384,32768,65535]} with generated names: in-process
      (32-bit size arithmetic) and through the compiler + typelib prober.
 
@@ -911,7 +916,8 @@ def run(ctx):
                  '_gi_typelib_hash_builder_*, %d probes each (members, proper prefixes, 1-char extensions, 1-char '
                  'substitutions, empty) through _gi_typelib_hash_search + final strcmp; (T) %d subsets compiled to real '
                  'typelibs (6 entry kinds rotating over the names, 4 c:identifier-prefixes), each also next to a second '
-                 'namespace holding the complementary key set: %d name / %d GType-name / %d error-domain probes through '
+                 'namespace holding the complementary key set (2 of 3 with cross-namespace references to alphabet names absent '
+                 'locally; load sequences eager / lazy / lazy-then-eager): %d name / %d GType-name / %d error-domain probes through '
                  'index, patched-away index (linear fallback), find_by_name / find_by_gtype (real GTypes) / '
                  'find_by_error_domain on two repositories, and repository probes before the load; (L) size ladder %r '
                  'in-process and through g-ir-compiler + prober (all members + 10 generated probes per member). '
